@@ -139,7 +139,9 @@ def _run_crosshair(path: Path, line: int, timeout: float, exclude: list[str]) ->
         res['reason'] = msgs[0]['msg']
     else:
         res['reason'] = f'no crosshair verdict (rc={rc}) {err.strip()[-400:]}'
-        if rc not in (0, 1):
+        if rc == 124:
+            res['reason'] = 'wall-clock timeout (machine loaded); inconclusive'
+        elif rc not in (0, 1):
             res['verdict'] = 'error'
     return res
 
